@@ -4,6 +4,7 @@ CONSTANTS MaxLen = 12
  IllShare = 6
  CoefMax = 2
  OpSet <- AllOps
+ Recipe = FALSE
 SPECIFICATION Spec
 CONSTRAINT EmitProg
 CHECK_DEADLOCK FALSE
